@@ -540,6 +540,32 @@ def p_bc_util(a):
     raise ValueError(f)
 
 
+def p_bc_trace(a):
+    """bin_completion called with a bins-manager; the module attribute find_bin_completions (as imported into
+    prtpy.packing.bin_completion) is wrapped to record, in order, (x, remaining items) of every call: the trace of the search"""
+    bcm = mod("prtpy.packing.bin_completion")
+    real = bcm.find_bin_completions
+    tr = []
+
+    def rec(x, items, binsize):
+        tr.append([_int(x), [_int(i) for i in items]])
+        return real(x, items, binsize)
+    bcm.find_bin_completions = rec
+    try:
+        keep = a.get("keep", True)
+        try:
+            b = bcm.bin_completion(binner_of(keep), a["C"], list(a["vals"]))
+            res = {"bins": enc_binsarray(b, keep, _int)}
+        except CaseTimeout:
+            raise
+        except Exception as e:
+            res = {"exc": type(e).__name__}
+    finally:
+        bcm.find_bin_completions = real
+    res["trace"] = tr
+    return res
+
+
 def p_binner_ops(a):
     """executes a sequence of bins-manager operations on the real managers; after every
     operation reports what every handle ever created shows"""
@@ -616,7 +642,7 @@ def p_history(a):
 
 
 PORTS = {
-    "numitems": p_numitems, "ilp_full": p_ilp_full, "history": p_history,
+    "numitems": p_numitems, "ilp_full": p_ilp_full, "history": p_history, "bc_trace": p_bc_trace,
     "binner_ops": p_binner_ops,
     "partition": p_partition, "pack": p_pack, "cg_clock": p_cg_clock, "cbldm_clock": p_cbldm_clock,
     "cbldm_args": p_cbldm_args, "ckk_generator": p_ckk_generator, "algo_direct": p_algo_direct,
